@@ -160,6 +160,25 @@ class Normalizer(ast.NodeTransformer):
             return ast.fix_missing_locations(ast.copy_location(ast.JoinedStr(values=merged), n))
         return n
 
+    def visit_JoinedStr(self, n: ast.JoinedStr):
+        # f"{s}{'\n'}" (what a named string constant inside an f-string becomes once it is read as its literal) -> f"{s}\n"
+        self.generic_visit(n)
+        vals: List[ast.AST] = []
+        changed = False
+        for v in n.values:
+            if isinstance(v, ast.FormattedValue) and v.conversion == -1 and v.format_spec is None and isinstance(v.value, ast.Constant) and isinstance(v.value.value, str):
+                v = ast.copy_location(ast.Constant(value=v.value.value), v)
+                changed = True
+            if vals and isinstance(v, ast.Constant) and isinstance(vals[-1], ast.Constant) and isinstance(v.value, str) and isinstance(vals[-1].value, str):
+                vals[-1] = ast.copy_location(ast.Constant(value=vals[-1].value + v.value), vals[-1])
+                changed = True
+            else:
+                vals.append(v)
+        if changed:
+            self.count += 1
+            n.values = vals
+        return n
+
     # ---- statements
     def visit_Return(self, n: ast.Return):
         self.generic_visit(n)
